@@ -685,6 +685,42 @@ def nameless_method(obj):
     return types.MethodType(functools.partial(len), obj)      # its __func__ has no __name__
 
 
+class RemoteError(Exception):
+    pass
+
+
+class _RemoteProxy:
+    """a callable proxy for something that lives elsewhere (RPC stubs, mocks with a spec): every unknown attribute is looked
+    up remotely, and that fails - not with AttributeError"""
+
+    def __call__(self, *a):
+        return None
+
+    def __getattr__(self, name):
+        raise RemoteError("cannot reach the remote object for %r" % name)
+
+
+class _TouchyName:
+    """a __name__ that is not a string and does not like being compared"""
+
+    def __eq__(self, other):
+        raise TypeError("not comparable")
+
+    __hash__ = None
+
+
+class _TaggedCallable:
+    __name__ = _TouchyName()
+
+    def __call__(self, *a):
+        return None
+
+
+def hostile_methods(obj):
+    # bound methods whose function objects object to being asked their name
+    return (types.MethodType(_RemoteProxy(), obj), types.MethodType(_TaggedCallable(), obj))
+
+
 def getdct():
     return S.dct
 
@@ -980,6 +1016,7 @@ class R:
         self.emit(1, "lpick = pick; lgetdct = getdct")
         if self.p.get("odd_locals"):
             self.emit(1, "oddl_dead = dead_proxy(); oddl_lazy = LazyObject(); oddl_meth = nameless_method(oddl_lazy)")
+            self.emit(1, "oddl_hostile = hostile_methods(oddl_lazy); oddl_h0 = oddl_hostile[0]; oddl_h1 = oddl_hostile[1]")
         self.emit(1, "ns = NS(); ns.getdct = getdct; ns.sub = NS(); ns.sub.slots = {}; dct = S.dct; key = 'kk'; lst = [0, 1, 2, 3]; "
                      "grid = [[0, 0], [0, 0]]")
         if any(str(it.get("target", "")).startswith("maybe_") for it in _all_items(self.p["body"])):
@@ -1152,7 +1189,7 @@ def compile_program(prog):
     linecache.cache[fname] = (len(src), None, src.splitlines(True), fname)
     ns = {"M": M, "AM": AM, "MAlias": MAlias, "AMAlias": AMAlias, "MDeco": MDeco, "AMDeco": AMDeco, "MDual": MDual, "AMDual": AMDual, "MEq": MEq, "AMEq": AMEq, "AMDeleg": AMDeleg, "E1": E1, "E2": E2, "NS": NS, "trap": trap, "probe": probe, "cprobe": functools.partial(probe), "noop": noop,
           "FR": S.fr, "sys": sys, "tick": tick, "S": S, "kwget": kwget, "pick": pick, "getdct": getdct, "dead_proxy": dead_proxy, "LazyObject": LazyObject,
-          "nameless_method": nameless_method, "GV": None,
+          "nameless_method": nameless_method, "hostile_methods": hostile_methods, "GV": None,
           "__name__": "g1prog"}
     with warnings.catch_warnings():
         warnings.simplefilter("ignore")  # SyntaxWarning: 'return' in a 'finally' block etc.
